@@ -5,6 +5,7 @@ mod out;
 mod rng;
 mod c12;
 mod c14;
+mod c16;
 mod probes;
 
 use std::path::PathBuf;
@@ -41,6 +42,7 @@ fn main() {
     match (cmd.as_str(), a.prop.as_str()) {
         ("gen", "C12") => c12::gen(&a),
         ("gen", "C14") => c14::gen(&a),
+        ("gen", "C16") => c16::gen(&a),
         _ => { eprintln!("unknown command/property"); std::process::exit(2); }
     }
 }
